@@ -4,6 +4,7 @@ from __future__ import annotations
 import ast
 from typing import Dict, List, Optional
 
+from .. import memo
 from ..boolterm import HEADS, head_name
 from ..core import AnchorError, Ctx, FuncInfo, dotted, norm, walk_no_nested
 from ..rewrite import check_arity, check_rewrite_equiv, check_total, single_bindings
@@ -58,6 +59,7 @@ def visitor_param(fi: FuncInfo) -> str:
 
 def run(ctx: Ctx):
     repo = ctx.repo
+    memo.check_memo_keys(ctx, ("boolopt.", "ast2logic.t_ast"))
     base = repo.cls(BASE)
 
     # ---- dispatcher (RW-CONGRUENCE)
